@@ -15,7 +15,8 @@ func sortFilter(array []any, key any) []any {
 	if key == nil {
 		values.Sort(result)
 	} else {
-		values.SortByProperty(result, fmt.Sprint(key), true)
+		// a drop inside the key is its Liquid value in the name, as wherever a value is printed
+		values.SortByProperty(result, fmt.Sprint(values.ResolveDrops(key)), true)
 	}
 	return result
 }
@@ -26,7 +27,7 @@ func sortNaturalFilter(array []any, key any) any {
 	if key != nil {
 		// As in sort, the key names an entry of string-keyed maps. An element that is not
 		// such a map, lacks the key, or holds something other than a string there, sorts first.
-		name := fmt.Sprint(key)
+		name := fmt.Sprint(values.ResolveDrops(key))
 		sort.Sort(keySortable{result, func(m any) string {
 			rv := reflect.ValueOf(m)
 			if rv.Kind() != reflect.Map || rv.Type().Key().Kind() != reflect.String {
